@@ -11,6 +11,7 @@
 package main
 
 import (
+	"encoding/base64"
 	"fmt"
 	"io"
 	"log/slog"
@@ -19,6 +20,7 @@ import (
 	"reflect"
 	"sort"
 	"strings"
+	"unicode/utf8"
 
 	"github.com/Query-farm/vgi-rpc-go/vgirpc"
 
@@ -71,6 +73,12 @@ func genTokenSet(rng *rand.Rand) []string {
 			}
 		case 11:
 			add(prev + "\x00")
+		case 12:
+			b := make([]byte, 1+rng.IntN(6))
+			for i := range b {
+				b[i] = byte(0x80 + rng.IntN(0x80)) // obs-text, not valid UTF-8
+			}
+			add(prev + string(b))
 		default:
 			add(randFrom(rng, plainChars+"-._~+/=", 1, 40))
 		}
@@ -152,6 +160,12 @@ func runBearer(r *mon.Run, nSets int) {
 		auth := vgirpc.BearerAuthenticateStatic(cfg)
 		hasEmpty := false
 		for _, t := range toks {
+			for i := 0; i < len(t); i++ {
+				if t[i] >= 0x80 && !utf8.ValidString(t) {
+					r.Class("bearer:high-byte-token")
+					break
+				}
+			}
 			if t == "" {
 				hasEmpty = true
 			}
@@ -178,7 +192,7 @@ func runBearer(r *mon.Run, nSets int) {
 				got, err = auth(req)
 				return nil
 			}()
-			witness := map[string]any{"tokens": toks, "header_set": hc.set, "authorization": hc.value, "class": hc.class}
+			witness := map[string]any{"tokens": toks, "header_set": hc.set, "authorization": hc.value, "authorization_b64": base64.StdEncoding.EncodeToString([]byte(hc.value)), "class": hc.class}
 			sig := "bearer|" + hc.class
 			if want != nil {
 				sig += "|accept"
@@ -277,7 +291,12 @@ func runXfcc(r *mon.Run, n int) {
 		for _, f := range fl {
 			r.Class("xfcc:" + f)
 		}
-		witness := map[string]any{"elements": elems, "style": st, "header": hdr}
+		witness := map[string]any{"elements": elems, "style": st, "header": hdr, "header_b64": base64.StdEncoding.EncodeToString([]byte(hdr))}
+		for _, e := range elems {
+			if !utf8.ValidString(e.Hash) || !utf8.ValidString(e.Subject) || !utf8.ValidString(strings.Join(e.DNS, "")) {
+				r.Class("xfcc:high-byte-value")
+			}
+		}
 		r.Case("xfcc|" + strings.Join(fl, ",") + fmt.Sprintf("|%d", ne))
 		if ci%(n/3+1) == 0 {
 			r.Sample(witness)
@@ -361,7 +380,7 @@ func runXfcc(r *mon.Run, n int) {
 				}
 			}
 			switch chosen.cnClass {
-			case "plain", "absent", "nosubject", "multirdn":
+			case "plain", "absent", "nosubject", "multirdn", "emptycn":
 				if ac.Principal != chosen.cn {
 					witness["selected"] = selName
 					r.Violation("xfcc:identity:"+selName+":"+chosen.cnClass,
@@ -422,7 +441,7 @@ func main() {
 		"bearer:reject:scheme-lower", "bearer:reject:no-space", "bearer:reject:subst", "bearer:reject:delete", "bearer:reject:insert", "bearer:reject:trailing-byte",
 		"xfcc:quoted-comma", "xfcc:quoted-semicolon", "xfcc:escaped-quote", "xfcc:escaped-backslash", "xfcc:urlencoded",
 		"xfcc:multi-element", "xfcc:key-case", "xfcc:ows",
-		"xfcc:identity:first:plain", "xfcc:identity:last:plain", "xfcc:identity:first:absent", "xfcc:identity:first:multirdn", "xfcc:identity:last:multirdn", "xfcc:identity:first-and-last-differ",
+		"xfcc:identity:first:plain", "xfcc:identity:last:plain", "xfcc:identity:first:absent", "xfcc:identity:first:multirdn", "xfcc:identity:last:multirdn", "xfcc:identity:first:emptycn", "xfcc:high-byte-value", "bearer:high-byte-token", "xfcc:identity:first-and-last-differ",
 		"xfcc:noise")
 	r.Assume("header values are handed to the AuthenticateFunc through http.Header.Set on a constructed *http.Request (the public API); net/http's own header canonicalisation is trusted")
 	r.Assume("XFCC grammar as documented in mtls.go: comma-separated elements, semicolon-separated key=value pairs, double-quoted values with backslash escapes, Cert/URI/By percent-encoded; CN values that need RFC 4514 escapes are generated but only determinism is asserted for them; multi-valued RDNs (CN=a+OU=b) are asserted: the CN is a")
